@@ -1,0 +1,19 @@
+//go:build verif
+
+// Contracts for the deductive verifier in /verif (comment-only file; compiled out
+// unless the build tag `verif` is set, and even then contains no executable code).
+package utils
+
+// Writing a response has no effect on the state the handlers are specified over (trusted).
+//@ func Encode
+//@   trusted
+//@   pure
+
+// A decoded request is handed on only after its own Validate accepted it (property C18); the
+// decoders themselves (encoding/json, msgpack on arbitrary bytes) are outside the contract.
+//@ func DecodeValid
+//@   property C18
+//@   safety -nil -overflow
+//@   pure
+//@   allocates
+//@   ensures result1 == nil ==> ncalls(Validate) == 1 && callres(Validate, 1, 0) == nil && callarg(Validate, 1, 0) == result0
